@@ -472,7 +472,7 @@ func isCallOf(v ssa.Value, name string, recv ssa.Value) bool {
 		return true
 	}
 	args := call.Common().Args
-	return len(args) > 0 && args[0] == recv
+	return len(args) > 0 && sameCallValue(args[0], recv)
 }
 
 // sameCallValue: a and b are the same SSA value or two calls of the same
